@@ -268,7 +268,12 @@ where
         if let RadioMode::Transmit = self.radio_mode {
             self.radio_kind.do_tx().await?;
             loop {
-                self.wait_for_irq().await?;
+                if let Err(err) = self.wait_for_irq().await {
+                    self.radio_kind.ensure_ready(self.radio_mode).await?;
+                    self.radio_kind.set_standby().await?;
+                    self.radio_mode = RadioMode::Standby;
+                    return Err(err);
+                }
                 match self.radio_kind.process_irq_event(self.radio_mode, None, true).await {
                     Ok(Some(IrqState::Done | IrqState::PreambleReceived)) => {
                         self.radio_mode = RadioMode::Standby;
@@ -372,7 +377,14 @@ where
                         return Err(err);
                     }
                 }
-                self.wait_for_irq().await?;
+                if let Err(err) = self.wait_for_irq().await {
+                    if self.radio_mode != RadioMode::Receive(RxMode::Continuous) {
+                        self.radio_kind.ensure_ready(self.radio_mode).await?;
+                        self.radio_kind.set_standby().await?;
+                        self.radio_mode = RadioMode::Standby;
+                    }
+                    return Err(err);
+                }
             }
         } else {
             Err(RadioError::InvalidRadioMode)
@@ -463,7 +475,12 @@ where
     pub async fn cad(&mut self, mdltn_params: &ModulationParams) -> Result<bool, RadioError> {
         if self.radio_mode == RadioMode::ChannelActivityDetection {
             self.radio_kind.do_cad(mdltn_params).await?;
-            self.wait_for_irq().await?;
+            if let Err(err) = self.wait_for_irq().await {
+                self.radio_kind.ensure_ready(self.radio_mode).await?;
+                self.radio_kind.set_standby().await?;
+                self.radio_mode = RadioMode::Standby;
+                return Err(err);
+            }
             let mut cad_activity_detected = false;
             match self
                 .radio_kind
